@@ -127,7 +127,7 @@ func (r *scriptReader) Read(p []byte) (int, error) {
 }
 
 type scriptWriter struct {
-	mode int // 0 ok, 1 short write, 2 error, 3 over-report, 4 short with error, 5 negative count, 6 negative count with error
+	mode int // 0 ok, 1 short write, 2 error, 3 over-report, 4 short with error, 5 negative count, 6 negative count with error, 7 all taken with an error
 	got  []byte
 }
 
@@ -150,6 +150,9 @@ func (w *scriptWriter) Write(p []byte) (int, error) {
 		return -2, nil
 	case 6: // ... together with an error
 		return -1, errScript
+	case 7: // a destination that takes every byte and reports an error all the same (a disk that filled up with this write)
+		w.got = append(w.got, p...)
+		return len(p), errScript
 	}
 	w.got = append(w.got, p...)
 	return len(p), nil
@@ -414,7 +417,7 @@ func c19diff(c *Ctx) {
 				}
 				fa, fb = mkf(), mkf()
 			case 13:
-				mode := r.Intn(7)
+				mode := r.Intn(8)
 				name = fmt.Sprintf("WriteTo(writer mode %d)", mode)
 				mkf := func() func(b bufAPI) (string, error) {
 					wr := &scriptWriter{mode: mode}
